@@ -330,6 +330,8 @@ class System:
             S[n] = F if z3.is_bool(c) else z3.BitVecVal(0, c.size())
         S['main.phase'] = z3.BitVecVal(0, 3)
         S['main.err'] = F
+        if hasattr(self, '_base_state'):
+            self._base_state(S)
         obs = Obs(self.n)
         # main start: engine::run up to the first suspension
         res = self.c_main_init.apply({n: c for n, c in self._sym_consts().items()})
